@@ -133,7 +133,9 @@ def images(rng, version, collide=False):
         has_src = rng.random() < 0.6
         cells = {}
         src_imgs = []
-        for a in arches + (["src"] if has_src else []):
+        keys = arches + (["src"] if has_src else [])
+        keys = sorted(keys) if rng.random() < 0.5 else rng.sample(keys, len(keys))
+        for a in keys:
             lst = []
             for _ in range(rng.randint(1, 3)):
                 at = FI.gen_image_attrs(rng)
@@ -158,6 +160,7 @@ def images(rng, version, collide=False):
                     src_seen = True
             cells[a] = lst
         layout[v] = cells
+        src_imgs = cells.get("src", [])
         for a in arches:
             cell = expected.setdefault((v, a), {})
             for at in cells[a] + src_imgs:
